@@ -13,6 +13,7 @@ import (
 	"sync"
 	"sync/atomic"
 	"time"
+	"verifharness/vkit"
 
 	"github.com/cilium/statedb"
 )
@@ -121,7 +122,7 @@ func (p *Pause) WaitPaused(d time.Duration) bool {
 	select {
 	case <-p.reached:
 		return true
-	case <-time.After(d):
+	case <-time.After(vkit.Patient(d)):
 		return false
 	}
 }
